@@ -319,6 +319,10 @@ def eval_cases(ctx, comp, cases, tag):
     return nums(m.group(1)), nums(m.group(2))
 
 
+MAX_CASE_BYTES = int(os.environ.get("VERIF_MAX_CASE_BYTES", "600000"))
+DISCARDED = {}
+
+
 def run_corr(comp, mode_args, inp=None, timeout=1200):
     rc, out = sh([os.path.join(HARNESS, "bin", comp.get("bin", "corr")), comp["name"]] + mode_args,
                  inp=inp, timeout=timeout)
@@ -328,6 +332,12 @@ def run_corr(comp, mode_args, inp=None, timeout=1200):
     for line in out.split("\n"):
         line = line.strip()
         if line.startswith("{"):
+            if len(line) > MAX_CASE_BYTES:
+                # a generated history whose recorded output explodes (e.g. listener scripts that re-add
+                # stacking modifiers at every nesting level): Coq cannot even parse a case file of that size,
+                # and nothing is learnt from it that smaller cases do not show; counted, not evaluated
+                DISCARDED[comp["name"]] = DISCARDED.get(comp["name"], 0) + 1
+                continue
             cases.append(json.loads(line))
     return cases
 
@@ -604,6 +614,7 @@ def correspondence(ctx):
             for c in cs:
                 hsh.update(json.dumps(c["in"], sort_keys=True).encode())
         stats["distinct_inputs"] = len({json.dumps(c["in"], sort_keys=True) for (_, cs) in batches for c in cs})
+        stats["discarded_oversize"] = DISCARDED.get(comp["name"], 0)
         ctx.corr[comp["name"]] = stats
         ctx.say("  correspondence %s: %d generated + %d corpus, %d mismatches, %d monitor rejections" %
                 (comp["name"], stats["generated"], stats["corpus"], stats["check_mismatches"], stats["monitor_rejections"]))
